@@ -68,11 +68,13 @@ def c02():
 @prop("C03")
 def c03():
     if _q():
-        plans = [dict(universe=u, variant="extras", depth=2) for u in U] + [dict(universe="U4", variant="extras", depth=4)] + \
+        plans = [dict(universe=u, variant="extras", depth=2) for u in U] + [dict(universe="U4", variant="extras", depth=3)] + \
+                [dict(universe="U5", variant="extras", depth=5, allpaths=4, allpaths_cap=20), dict(universe="U6", variant="extras", depth=12, walks=800)] + \
                 [dict(universe=u, variant="extras", depth=7, simulate=25, fan_keep=0.1) for u in U]
         hs, modes = (0,), ("compiled",)
     else:
-        plans = [dict(universe=u, variant="extras", depth=3) for u in U] + [dict(universe="U4", variant="extras", depth=5)] + \
+        plans = [dict(universe=u, variant="extras", depth=3) for u in U] + [dict(universe="U4", variant="extras", depth=4)] + \
+                [dict(universe="U5", variant="extras", depth=6, allpaths=5, allpaths_cap=60), dict(universe="U6", variant="extras", depth=16, walks=8000)] + \
                 [dict(universe=u, variant="extras", depth=12, simulate=100, fan_keep=0.03) for u in U]
         hs, modes = (0, 1), ("compiled", "pure")
     v = me.run("C03", "model_checking",
@@ -90,10 +92,12 @@ def c03():
 def c17():
     if _q():
         plans = [dict(universe=u, variant="extras", depth=2) for u in U] + [dict(universe="U4", variant="extras", depth=3)] + \
+                [dict(universe="U5", variant="all", depth=4), dict(universe="U6", variant="all", depth=10, walks=600)] + \
                 [dict(universe=u, variant="extras", depth=7, simulate=25, fan_keep=0.1) for u in U]
         modes = ("compiled",)
     else:
         plans = [dict(universe=u, variant="extras", depth=3) for u in U] + [dict(universe="U4", variant="extras", depth=4)] + \
+                [dict(universe="U5", variant="all", depth=5), dict(universe="U6", variant="all", depth=14, walks=6000)] + \
                 [dict(universe=u, variant="extras", depth=12, simulate=100, fan_keep=0.03) for u in U]
         modes = ("compiled", "pure")
     return me.run("C17", "model_checking",
